@@ -280,15 +280,17 @@ func (s *SpokFile) run(stream iostream.IOStream, runner shell.Runner, force bool
 			}
 
 			// Each task's digest is recorded on its own, and only once that task has succeeded
-			// on the files the digest describes. A task with no file dependencies gets no digest
-			// so it always runs, and a task that failed on the very files its digest describes
-			// loses it so it runs again next time
+			// on the files the digest describes. A task that succeeded with no files to hash (no
+			// file dependencies, or globs that match nothing) gets no digest so it always runs,
+			// and a task that failed on the very files its digest describes loses it so it runs
+			// again next time. A task that failed on anything else keeps the digest of its last
+			// success
 			newDigest := cachedDigest
 			switch {
-			case len(toHash) == 0:
-				newDigest = ""
-			case result.Ok():
+			case result.Ok() && len(toHash) != 0:
 				newDigest = currentDigest
+			case result.Ok():
+				newDigest = ""
 			case currentDigest == cachedDigest:
 				newDigest = ""
 			}
